@@ -224,9 +224,10 @@ func runC14(c model.Case, ev *Ev) error {
 			continue
 		}
 		if !o.Accepted && up4 && justBroke {
-			// the first request after a channel break may find the agent still believing in the dead channel:
-			// the write fails and the request is refused - a failed update, which must emit nothing
-			justBroke = false
+			// a request after a channel break may find the agent still believing in the dead channel: the write
+			// fails and the request is refused - a failed update, which must emit nothing. (While gRPC has re-dialled
+			// the connection underneath but the agent has not opened a new stream, the switch keeps refusing its
+			// writes - it is not the primary - so this can last until the first accepted modification.)
 			time.Sleep(20 * time.Millisecond)
 			if extra := pktSince(pktBase); len(extra) > carry {
 				return fmt.Errorf("op %d: the modification was refused (cause %d) right after a channel break, yet %d end marker(s) were emitted", i, o.Cause, len(extra)-carry)
